@@ -17,6 +17,7 @@ import tempfile
 import uuid
 from traceback import print_exc
 import gzip
+import shutil
 
 logger = logging.getLogger('IsoQuant')
 
@@ -147,6 +148,21 @@ def check_db_sequences(db_filename):
         exit(-3)
 
 
+COMPRESSED_EXTENSIONS = ['.gz', '.gzip', '.bgz']
+
+
+def unpack_for_gffutils(gtf, db):
+    # gffutils unpacks a file only when its name ends with '.gz'; an annotation compressed under another name that
+    # check_gtf_duplicates accepts ('.gzip', '.bgz', '.GZ') is unpacked next to the database for the conversion
+    name, ext = os.path.splitext(os.path.basename(gtf))
+    if ext.lower() not in COMPRESSED_EXTENSIONS or gtf.endswith('.gz'):
+        return gtf, False
+    unpacked_gtf = db + ".unpacked" + os.path.splitext(name)[1].lower()
+    with gzip.open(gtf, "rb") as compressed, open(unpacked_gtf, "wb") as plain:
+        shutil.copyfileobj(compressed, plain)
+    return unpacked_gtf, True
+
+
 def gtf2db(gtf, db, complete_db=False, check_gtf=True):
     if check_gtf:
         check_input_gtf(gtf, db, complete_db)
@@ -157,6 +173,7 @@ def gtf2db(gtf, db, complete_db=False, check_gtf=True):
     # file first and fills the new one over seconds to minutes, so such a run would open a half-built database.
     # Build it under a name of our own and move the complete file into place.
     tmp_db = "%s.%s.tmp" % (db, uuid.uuid4().hex)
+    gtf, unpacked = unpack_for_gffutils(gtf, db)
     try:
         gffutils.create_db(gtf, tmp_db, force=True, keep_order=True, merge_strategy='error',
                            sort_attribute_values=True, disable_infer_transcripts=complete_db,
@@ -165,6 +182,8 @@ def gtf2db(gtf, db, complete_db=False, check_gtf=True):
     finally:
         if os.path.exists(tmp_db):
             os.remove(tmp_db)
+        if unpacked:
+            os.remove(gtf)
     logger.info("Gene database written to " + db)
     logger.info("Provide this database next time to avoid excessive conversion")
 
@@ -220,7 +239,7 @@ def check_gtf_duplicates(gtf):
 
     gtf_name = os.path.basename(gtf)
     gtf_name, outer_ext = os.path.splitext(gtf_name)
-    if outer_ext.lower() in ['.gz', '.gzip', '.bgz']:
+    if outer_ext.lower() in COMPRESSED_EXTENSIONS:
         handle = gzip.open(gtf, "rt")
         gtf_name, inner_ext = os.path.splitext(gtf_name)
     else:
